@@ -2342,7 +2342,8 @@ pub fn monitor() -> super::Monitor {
             ("tcp_datagrams_compared_raw", 10_000),
             ("perm_orders_judged", 50_000),
             ("perm_orders_must_deliver", 40_000),
-            ("perm_orders_untrackable", 100),
+            // with a large range table (chk-big: 32) no order of <= 6 fragments is untrackable
+            ("perm_orders_untrackable", if smoltcp::config::ASSEMBLER_MAX_SEGMENT_COUNT <= 8 { 100 } else { 0 }),
             ("recv_cases", 10_000),
             ("recv_context_based", 3_000),
             ("recv_fragmented", 3_000),
